@@ -272,17 +272,18 @@ fn get_imsaak(
     }
 
     let mut hours = get_hours_adj_ext(&params_adj, top_astro_day, weather);
-    if let Ok(hour) = hours[&Fajr] {
-        if hour.extreme {
-            params_adj = params.clone();
-            *params_adj.minutes.get_mut(&Fajr).unwrap() -= if params.intervals[&Imsaak] == 0. {
-                Params::DEF_IMSAAK_ANGLE
-            } else {
-                params.intervals[&Imsaak]
-            };
+    // Imsaak follows the Fajr that is actually reported: when that Fajr is extreme, so is Imsaak.
+    let is_extreme =
+        |hours: &HashMap<Prayer, Result<PrayerHour, ()>>| hours[&Fajr].map_or(false, |x| x.extreme);
+    if is_extreme(&hours) || is_extreme(&get_hours_adj_ext(params, top_astro_day, weather)) {
+        params_adj = params.clone();
+        *params_adj.minutes.get_mut(&Fajr).unwrap() -= if params.intervals[&Imsaak] == 0. {
+            Params::DEF_IMSAAK_ANGLE
+        } else {
+            params.intervals[&Imsaak]
+        };
 
-            hours = get_hours_adj_ext(&params_adj, top_astro_day, weather);
-        }
+        hours = get_hours_adj_ext(&params_adj, top_astro_day, weather);
     }
 
     hours[&Fajr].map(|x| to_prayer_time(&params_adj, Fajr, x))
